@@ -885,4 +885,22 @@ theorem tr_matchWithBindingss (n K : Nat) (g : Env) (m p f : GV) (H : Heap) (bss
     cases fl <;> simp
 
 
+/-! ## `Bindings.Extend`, `NewBindings` -/
+
+theorem find_Extend : findFn matchProg ".Extend" = some matchProg_MExtend := by rfl
+theorem find_NewBindings : findFn matchProg "NewBindings" = some matchProg_NewBindings := by rfl
+
+/-- `Bindings.Extend` writes into the receiver and hands the receiver back (which is why the engine
+    only ever calls it on a copy) -/
+theorem tr_Extend (n : Nat) (g : Env) (H : Heap) (a : Nat) (o : MapObj) (p : String) (v : GV) (ho : heapGet H a = some o) :
+    callFn (n + 12) matchProg g ".Extend" (.ref a) [.str p, v] H =
+      .ok ([.ref a], heapSet H a { o with kvs := minsert (.str p) v o.kvs }) := by
+  simp [find_Extend, matchProg_MExtend, ho]
+
+/-- `NewBindings` is a new, empty map -/
+theorem tr_NewBindings (n : Nat) (g : Env) (H : Heap) :
+    callFn (n + 10) matchProg g "NewBindings" .nil [] H = .ok ([.ref H.length], H ++ [{ ty := "Bindings", kvs := [] }]) := by
+  simp [find_NewBindings, matchProg_NewBindings]
+
+
 end Sheens.TrMatch
